@@ -2,6 +2,6 @@
 EXTENDS GdlRefTrace
 Cls4 == << <<1, 2>>, <<2, 3>>, <<4, 5>>, <<6>> >>
 AdvF == [g \in 0..6 |-> CASE g = 0 -> 0 [] g = 1 -> 500 [] g = 2 -> 600 [] g = 3 -> 450 [] g = 4 -> 700 [] g = 5 -> 300 [] g = 6 -> 0]
-GAttrF == [g \in 0..6 |-> IF g \in {2, 5} THEN 1 ELSE 0]
+GAttrF == [g \in 0..6 |-> IF g \in {2, 5} THEN 1 ELSE IF g = 3 THEN -1 ELSE 0]
 OpsAll == {"keep", "glyph", "subs", "copy", "delete", "insert"}
 =============================================================================
